@@ -97,6 +97,47 @@ impl Expr
 	}
 
 
+	/// Gives the expression and everything inside it one and the
+	/// same span (for text that does not stand in any file as it is)
+	pub fn with_all_spans(self, new_span: diagn::Span) -> Expr
+	{
+		let relocate = |e: Box<Expr>| Box::new(e.with_all_spans(new_span));
+
+		match self
+		{
+			Expr::Literal(_, value) =>
+				Expr::Literal(new_span, value),
+
+			Expr::Variable(_, level, names) =>
+				Expr::Variable(new_span, level, names),
+
+			Expr::UnaryOp(_, _, op, inner) =>
+				Expr::UnaryOp(new_span, new_span, op, relocate(inner)),
+
+			Expr::BinaryOp(_, _, op, lhs, rhs) =>
+				Expr::BinaryOp(new_span, new_span, op, relocate(lhs), relocate(rhs)),
+
+			Expr::TernaryOp(_, cond, true_branch, false_branch) =>
+				Expr::TernaryOp(new_span, relocate(cond), relocate(true_branch), relocate(false_branch)),
+
+			Expr::Slice(_, _, left, right, inner) =>
+				Expr::Slice(new_span, new_span, relocate(left), relocate(right), relocate(inner)),
+
+			Expr::SliceShort(_, _, size, inner) =>
+				Expr::SliceShort(new_span, new_span, relocate(size), relocate(inner)),
+
+			Expr::Block(_, exprs) =>
+				Expr::Block(new_span, exprs.into_iter().map(|e| e.with_all_spans(new_span)).collect()),
+
+			Expr::Call(_, func, args) =>
+				Expr::Call(new_span, relocate(func), args.into_iter().map(|e| e.with_all_spans(new_span)).collect()),
+
+			Expr::Asm(_, ast) =>
+				Expr::Asm(new_span, ast),
+		}
+	}
+
+
 	pub fn span(&self) -> diagn::Span
 	{
 		match self
